@@ -99,7 +99,7 @@ theorem nobreaking_arguments_kept (o n : SchemaD) (h : diffSchema o n 2 = [])
       left; right
       unfold diffFieldArguments
       simp only [List.mem_append]
-      left
+      left; left
       apply List.mem_filterMap.mpr
       exact ⟨a, ha, by simp [hn]⟩
     · have : sev "FieldArgumentRemoved" false = 2 := by decide
@@ -131,7 +131,7 @@ theorem nobreaking_no_new_required_argument (o n : SchemaD) (h : diffSchema o n 
       left; right
       unfold diffFieldArguments
       simp only [List.mem_append]
-      right
+      left; right
       apply List.mem_map.mpr
       refine ⟨b, List.mem_filter.mpr ⟨hb, by simp [hnew]⟩, ?_⟩
       simp [hr]
@@ -217,7 +217,7 @@ theorem nobreaking_input_fields (o n : SchemaD) (h : diffSchema o n 2 = [])
         apply List.mem_flatMap.mpr
         refine ⟨(ot, nt), hp, ?_⟩
         simp only [List.mem_append]
-        left
+        left; left
         apply List.mem_filterMap.mpr
         exact ⟨f, hf, by simp [hn]⟩
       · have : sev "InputFieldRemoved" false = 2 := by decide
@@ -234,7 +234,7 @@ theorem nobreaking_input_fields (o n : SchemaD) (h : diffSchema o n 2 = [])
           apply List.mem_flatMap.mpr
           refine ⟨(ot, nt), hp, ?_⟩
           simp only [List.mem_append]
-          left
+          left; left
           apply List.mem_filterMap.mpr
           exact ⟨f, hf, by simp [hn, hs]⟩
         · have : sev "InputFieldChangedType" false = 2 := by decide
@@ -249,7 +249,7 @@ theorem nobreaking_input_fields (o n : SchemaD) (h : diffSchema o n 2 = [])
         apply List.mem_flatMap.mpr
         refine ⟨(ot, nt), hp, ?_⟩
         simp only [List.mem_append]
-        right
+        left; right
         apply List.mem_map.mpr
         refine ⟨g, List.mem_filter.mpr ⟨hg, by simp [hnew]⟩, ?_⟩
         simp [hr]
